@@ -291,8 +291,29 @@ func scenC04(k *K) {
 		k.W.Stat("tamper:" + field)
 		k.W.Stat("tamper-mode:" + mode)
 		route := []string{"topic", "direct", "sync"}[k.C.Intn(3)]
+		diskFault := k.C.Chance(1, 5)
+		if diskFault {
+			// the receiver's next block write fails (its copy of an announced head cannot be
+			// stored): whatever that does to the announcement, nothing tampered gets in
+			nd := c.Peers[1].Node
+			k.W.mu.Lock()
+			k.W.DiskFault = func(on *Node, kind, space, key string) error {
+				if on == nd && kind == "block" {
+					k.W.DiskFault = nil
+					k.W.stat("receiver-block-write-failed")
+					return fmt.Errorf("sim: disk error on block write")
+				}
+				return nil
+			}
+			k.W.mu.Unlock()
+		}
 		adv.Deliver(route, c.Peers[1], R, heads...)
 		k.Steps(k.C.Range(3, 25))
+		if diskFault {
+			k.W.mu.Lock()
+			k.W.DiskFault = nil
+			k.W.mu.Unlock()
+		}
 		if k.C.Chance(1, 3) {
 			c.RandomWrite(0)
 			k.Steps(k.C.Intn(8))
